@@ -377,7 +377,7 @@ func generate(emit func(k kase)) {
 	r := rand.New(rand.NewSource(vh.Seed()))
 	scale := 1
 	if vh.Tier() == "thorough" {
-		scale = 12
+		scale = 20
 	}
 	n := 0
 	put := func(k kase) {
